@@ -154,6 +154,13 @@ def generate(rng, nfn=None, static_only=False, cxx=False):
         if fn.params and not fn.cb and not fn.variadic and rng.random() < 0.3:
             fn.unnamed = set(j for j in range(len(fn.params)) if rng.random() < 0.5)
         lib.fns.append(fn)
+    if not static_only and not cxx and rng.random() < 0.3:
+        # a function that does not return: the Rust driver calls it last; the callee prints what arrived and leaves through _exit(0)
+        ps_ = [rng.choice([t_ for t_ in types if t_.kind in ("int", "float", "bool", "ptr")]) for _ in range(rng.randint(0, 4))]
+        nr = Fn("fn_noret", None, ps_)
+        nr.noreturn = True
+        nr.spelling = rng.choice(["_Noreturn ", "__attribute__((noreturn)) "])
+        lib.fns.append(nr)
     if not static_only:
         for i in range(rng.randint(0, 6)):
             t = rng.choice(types + byval)
@@ -189,7 +196,8 @@ def fn_proto(fn, lib, decl_only=False):
         ps.append("%s cbp" % fn.cb[0])
     if fn.variadic:
         ps.append("...")
-    return "%s%s %s(%s)" % ("__attribute__((ms_abi)) " if getattr(fn, "abi", None) == "ms_abi" else "", fn.ret.c if fn.ret else "void", fn.name,
+    return "%s%s%s %s(%s)" % (getattr(fn, "spelling", "") if getattr(fn, "noreturn", False) else "",
+                              "__attribute__((ms_abi)) " if getattr(fn, "abi", None) == "ms_abi" else "", fn.ret.c if fn.ret else "void", fn.name,
                             ", ".join(ps) or "void")
 
 
@@ -303,6 +311,8 @@ def callee_body(fn, lib, inline=False):
              "long long vl = __builtin_va_arg(ap, long long); __builtin_va_end(ap); printf(\"%s.va %%d d%%016llx %%lld\\n\", vi, vf_fbits(vd), vl); }\n" % (
                  len(fn.params) - 1, fn.name)
     s += "fflush(stdout);\n"
+    if getattr(fn, "noreturn", False):
+        s += "exit(0);\n"
     if fn.ret:
         s += "{ %s r; memset(&r, 0, sizeof r);\n%s return r; }\n" % (fn.ret.c, c_assign(fn.ret, "r", fn.name + ".ret"))
     return s
@@ -479,9 +489,16 @@ def emit_rs(lib, view, bindings_path, link_names, call_static=False):
                     fnames.add(m["name"])
         elif it["kind"] == "fn":
             fnames.add(it["name"])
+    last_call = []
     for fn in lib.fns:
         if fn.name not in fnames:
             info["skipped"].append((fn.name, "no binding"))
+            continue
+        if getattr(fn, "noreturn", False):
+            # called after everything else (it never comes back); the declared return type is checked from the inventory
+            last_call.append('    println!("NORETURN-CALL %s"); %s(%s);' % (fn.name, fn.name, ", ".join("vf_mk(%d)" % val_for(p, "%s.a%d" % (fn.name, j)) for j, p in enumerate(fn.params))))
+            last_call.append('    println!("NORETURN-RETURNED %s");' % fn.name)
+            info["called"] += 1
             continue
         ar = len(fn.params) + (1 if fn.cb else 0)
         if not fn.variadic:
@@ -536,6 +553,7 @@ def emit_rs(lib, view, bindings_path, link_names, call_static=False):
             else:
                 main.append("    vf_store(addr_of_mut!(%s), %d, false);" % (n, val_for(t, "gw." + n)))
     main.append("    vf_dump_globals();")
+    main += last_call
     main.append("} }")
     return "\n".join(out + main) + "\n", info
 
